@@ -11,7 +11,7 @@ static COUNTER: AtomicUsize = AtomicUsize::new(0);
 pub fn units(tier: &str, _seed: u64) -> Vec<String> {
     let mut v = vec![];
     // (k option, k metadata, area option, area metadata): - absent, s symbolic number, x non-numeric text
-    let combos: &[&str] = &["----", "s---", "-s--", "ss--", "--s-", "---s", "--ss", "ssss", "-x--", "---x", "sx--", "--sx", "x---", "--x-"];
+    let combos: &[&str] = &["----", "s---", "-s--", "ss--", "--s-", "---s", "--ss", "ssss", "-x--", "---x", "sx--", "--sx", "x---", "--x-", "n---", "-n--", "--n-", "---n", "i---"];
     for c in combos {
         v.push(unit(&[("ka", c), ("loc", "cli"), ("red1", "none")]));
     }
@@ -66,11 +66,13 @@ pub fn scenario(u: &Unit) -> String {
     match kmeta {
         's' => comps.push_str(&format!("#META CTE_KEXP: {}\n", ptok("kmeta"))),
         'x' => comps.push_str("#META CTE_KEXP: mucho\n"),
+        'n' => comps.push_str("#META CTE_KEXP: NaN\n"),
         _ => {}
     }
     match ameta {
         's' => comps.push_str(&format!("#META CTE_AREAREF: {}\n", ptok("ameta"))),
         'x' => comps.push_str("#META CTE_AREAREF: grande\n"),
+        'n' => comps.push_str("#META CTE_AREAREF: nan\n"),
         _ => {}
     }
     if loc.contains("meta") {
@@ -100,6 +102,9 @@ pub fn scenario(u: &Unit) -> String {
             args.push("--kexp".into());
             args.push("mucho".into());
         }
+        // spellings that the number parser accepts but that are not numbers in [0, 1]
+        'n' => args.push("--kexp=nan".into()),
+        'i' => args.push("--kexp=inf".into()),
         _ => {}
     }
     match aopt {
@@ -110,6 +115,7 @@ pub fn scenario(u: &Unit) -> String {
             args.push("--arearef".into());
             args.push("grande".into());
         }
+        'n' => args.push("--arearef=NaN".into()),
         _ => {}
     }
     if red1 == "cli" || red1 == "both" {
@@ -160,7 +166,7 @@ pub fn scenario(u: &Unit) -> String {
     let (ko, km, ao, am) = (val(kopt, "kopt"), val(kmeta, "kmeta"), val(aopt, "aopt"), val(ameta, "ameta"));
     let valid_k = |x: F| k(0.0).le_(x).and(x.le_(k(1.0)));
     let valid_a = |x: F| k(1.0e-3).lt_(x);
-    let nonnum = [kopt, kmeta, aopt, ameta].contains(&'x');
+    let nonnum = [kopt, kmeta, aopt, ameta].iter().any(|c| ['x', 'n', 'i'].contains(c));
     let has_factors = loc != "none";
     let code = match code {
         Some(c) => c,
@@ -196,8 +202,9 @@ pub fn scenario(u: &Unit) -> String {
         }
         return format!("exit:{}", code);
     }
+    let bad = |c: char| ['x', 'n', 'i'].contains(&c);
     // accepted: the effective values are valid, and non-numeric text was not accepted anywhere it is effective
-    ob("non-numeric-effective-value-is-refused", if (kopt == 'x') || (aopt == 'x') || (kmeta == 'x' && kopt == '-') || (ameta == 'x' && aopt == '-') { f() } else { t() });
+    ob("non-numeric-effective-value-is-refused", if bad(kopt) || bad(aopt) || (bad(kmeta) && kopt == '-') || (bad(ameta) && aopt == '-') { f() } else { t() });
     ob("accepted=>k_exp-in-range", valid_k(k_eff));
     ob("accepted=>area-in-range", valid_a(a_eff));
     // echoed with origin
